@@ -192,6 +192,12 @@ func IsConcrete(v any) bool { return true }
 // MapOrder switches symbolic map iteration order in garble code on or off.
 func MapOrder(on bool) {}
 
+// MapOrderOpts refines MapOrder: maps with fewer than minLen live entries keep
+// insertion order; all permutations are explored up to fullUpTo entries
+// (identity, reversal and rotations above); with sticky a map object keeps the
+// order drawn for it as long as its size is unchanged. Zeroes = defaults (2, 3).
+func MapOrderOpts(minLen, fullUpTo int, sticky bool) {}
+
 // Observe records values for the differential (engine vs native) check.
 func Observe(tag string, vals ...any) {
 	var sb strings.Builder
